@@ -792,6 +792,9 @@ func (e *Env) call(n ECall) TVal {
 		if res.Len() < 1 {
 			return e.errf("lib: %s has no result", ns.V)
 		}
+		if t, ok := vc.foldPureLib(ns.V, as); ok {
+			return TVal{T: t, Ty: res.At(0).Type()}
+		}
 		rs := vc.sorts.SortOf(res.At(0).Type())
 		fn := libFuncName(ns.V, 0, sorts)
 		vc.declareFun(fn, sorts, rs)
